@@ -181,6 +181,9 @@ func fixup(r *common.Rng, v reflect.Value) {
 		if r.Chance(9, 10) && p.CidVersion > 0 && r.Chance(1, 2) {
 			p.RawLeaves = true
 		}
+		if r.Chance(9, 10) && p.HashFun != "sha2-256" {
+			p.CidVersion = 1 // a CIDv0 only carries sha2-256; the server refuses the combination
+		}
 	}
 	if v.Type().Kind() == reflect.Struct {
 		if f := v.FieldByName("Cid"); f.IsValid() && f.Type() == reflect.TypeOf(&api.Pin{}) && !f.IsNil() {
